@@ -258,7 +258,7 @@ def parse_trace(text, workdir):
     def absj(base, p):
         return os.path.normpath(p if p.startswith("/") else os.path.join(base or workdir, p))
 
-    for line in text.splitlines():
+    for line in jlines(text):
         if "+++ killed by" in line:
             killed = True
             continue
@@ -347,7 +347,7 @@ def parse_trace(text, workdir):
 def count_calls(text):
     """occurrences of each traced call in the whole process (for `when=K`) and the K's that concern workdir files"""
     counts = {}
-    for line in text.splitlines():
+    for line in jlines(text):
         m = re.match(r"^\d+\s+(\w+)\(", line)
         if m:
             counts[m.group(1)] = counts.get(m.group(1), 0) + 1
@@ -359,7 +359,7 @@ def relevant_whens(text, workdir):
     wd = workdir.rstrip("/") + "/"
     hexwd = "".join("\\x%02x" % b for b in wd.encode())
     idx, out = {}, {}
-    for line in text.splitlines():
+    for line in jlines(text):
         m = re.match(r"^\d+\s+(\w+)\(", line)
         if not m:
             continue
